@@ -14,7 +14,7 @@ const char *mop_names[MOP_N] = {
     "glyphs",
     "r_init_rects", "r_binop", "r_rectop", "r_copy", "r_inverse", "r_conv", "r_fini",
     "filter_create", "compute_region",
-    "scribble", "alias", "bits_huge", "bits_yuv", "r_from_image",
+    "scribble", "alias", "bits_huge", "bits_yuv", "r_from_image", "bits_refused",
 };
 
 const pixman_format_code_t sim_formats[] = {
@@ -223,7 +223,28 @@ destroy_cb (pixman_image_t *image, void *data)
     if (!m) return;
     m->cb_total++;
     for (i = 0; i < M_NIMG; i++)
-	if (m->img[i].img == image && (void *)&m->img[i] == data) { m->img[i].destroy_calls++; return; }
+	if (m->img[i].img == image && (void *)&m->img[i] == data)
+	{
+	    mslot_t *s = &m->img[i];
+	    s->destroy_calls++;
+	    /* the callback is told about an image that is going away, not about one that has gone:
+	     * what the getters say is still true and the pixels can still be read (a caller that saves
+	     * them, or frees its own buffer through get_data(), relies on that) */
+	    if (s->kind == MOP_BITS && s->lowest && !s->yuv && !s->tile && s->storage && s->storage < ((size_t)1 << 30))
+	    {
+		volatile const uint8_t *px = (const uint8_t *)pixman_image_get_data (image);
+		int st = pixman_image_get_stride (image);
+		if (pixman_image_get_width (image) != s->w || pixman_image_get_height (image) != s->h || st != s->stride || !px)
+		    m->cb_unexpected++;
+		else
+		{
+		    const volatile uint8_t *lo = st < 0 ? px + (long)st * (s->h - 1) : px;
+		    volatile unsigned sink = (unsigned)lo[0] + lo[s->storage - 1];       /* ASan objects if the storage is gone */
+		    (void)sink;
+		}
+	    }
+	    return;
+	}
     m->cb_unexpected++;
 }
 
@@ -863,6 +884,22 @@ step_image_op (machine_t *m, const sim_op_t *op, const int64_t *a, int n, mstep_
 	s->buf = buf; s->lowest = lowest; s->stride = g.stride; s->storage = (size_t)g.stride * (g.h + g.extra_rows);
 	s->fmt = g.fmt; s->fmt_idx = 0; s->w = g.w; s->h = g.h; s->yuv = 1;
 	st->created_slot = slot;
+	return;
+    }
+    case MOP_BITS_REFUSED:
+    {
+	bits_geom_t g;
+	arena_buf_t *buf;
+	pixman_image_t *img;
+	if (s->used) return;
+	decode_bits (a, n, &g);
+	st->executed = 1;
+	st->has_status = 1;
+	buf = arena_new ((size_t)g.stride * g.h + 8, 0, 0, 0);
+	img = pixman_image_create_bits (g.fmt, g.w, g.h, (uint32_t *)buf->data, g.stride + 1 + (int)sim_mod (A (9), 3));
+	st->ret = img == NULL;
+	if (img) pixman_image_unref (img);      /* not refused after all: let it go again */
+	arena_free (buf);
 	return;
     }
     case MOP_BITS_HUGE:
@@ -1595,7 +1632,7 @@ machine_step (machine_t *m, const sim_op_t *op, int op_index, mstep_t *st)
 	fentry = (int)sim_clamp (op->a[2], 0, 3);
     }
     sim_alloc_enter (op_index, fmode, fk, fentry);
-    if (op->kind <= MOP_SET_DITHER_OFFSET || op->kind == MOP_ALIAS || op->kind == MOP_BITS_HUGE || op->kind == MOP_BITS_YUV) step_image_op (m, op, a, n, st);
+    if (op->kind <= MOP_SET_DITHER_OFFSET || op->kind == MOP_ALIAS || op->kind == MOP_BITS_HUGE || op->kind == MOP_BITS_YUV || op->kind == MOP_BITS_REFUSED) step_image_op (m, op, a, n, st);
     else if (op->kind <= MOP_COMPOSITE_TRIS || op->kind == MOP_SCRIBBLE) step_draw_op (m, op, a, n, st);
     else if (op->kind <= MOP_GLYPHS) step_glyph_op (m, op, a, n, st);
     else if (op->kind <= MOP_R_FINI || op->kind == MOP_R_FROM_IMAGE) step_region_op (m, op, a, n, st);
